@@ -14,6 +14,8 @@ CLAIMED = {
          'For Luhn (several alphabets), Verhoeff, Damm and the five ISO 7064 modules: for all payloads of each explored length the solver shows append-validity, uniqueness of the check character, detection of every same-kind single substitution and (where promised) every adjacent transposition, and that Luhn misses exactly the first/last-symbol swap. Bounded lengths; the unbounded claim of the property is not made.', '5 C06'),
  'C14': ('symbolic execution of the real clean() over all code points / symbolic strings x symbolic deletechars + z3; module level: symbolic look-alike at a symbolic position',
          'One symbolic character over all 1,114,112 code points decides the per-character clauses against the interpreter\'s unicodedata tables (all violating code points are enumerated); symbolic strings and deletechars decide order/count, absence of deleted characters and idempotence; per module, doctest-valid presentations and symbolic ASCII inputs with one symbolic look-alike at a symbolic position must validate like the ASCII spelling.', '5 C14'),
+ 'C17': ('paired symbolic runs of the real validate() on a symbolic valid number and its single-character substitution / adjacent transposition, with cut points and solver-proven injectivity lemmas; z3',
+         'For ISBN, EAN, ISSN, ISMN, IMEI, ISNI, IBAN (per country), LEI, ISO 11649, GRid and the listed Luhn/Verhoeff/ISO 7064 protected national numbers: for a symbolic valid number of each explored length and every position, the solver shows that every same-class single substitution (and, where promised, every adjacent swap of different digits) makes validate() raise. Bounded lengths / per-unit caps; de.idnr is not covered (symbolic multiset unsupported).', '5 C17'),
  'C15': ('bounded symbolic execution of every identifier module\'s validate() + z3 obligation "all returned characters < 128"',
          'On every accepting path of validate(x) the solver must show every character of the returned value is ASCII, with x fully symbolic over all code points (one non-ASCII character anywhere, any code point, in quick). Scope: all identifier modules except the 8 generic algorithm modules and the 3 formats with national letters. Bounded as C01.', '5 C15'),
 }
